@@ -248,7 +248,7 @@ fn err_class(e: &g::error::SoapError) -> String {
 }
 "#;
 
-pub fn send_assertions(m: &Model, w: &Wsdl) -> String {
+pub fn send_assertions(m: &Model, w: &Wsdl, scan: &Scan) -> String {
     let svc = w.service.xml();
     let mut s = String::from("#[allow(warnings)]\nmod c18 {\nuse super::g;\nfn assert_send<T: Send>(_: T) {}\nfn assert_send_sync<T: Send + Sync>() {}\n");
     for op in &w.operations {
@@ -261,8 +261,10 @@ pub fn send_assertions(m: &Model, w: &Wsdl) -> String {
         }
         s += &format!(" assert_send_sync::<g::multi_ref::MultiRef<g::{base}InputEnvelope>>();");
         s += " }\n";
-        if op.soap_action.as_ref().is_some_and(|a| !a.is_empty()) {
-            s += &format!("fn f_{0}(req: g::{base}InputEnvelope) {{ assert_send(g::{method}(req, None)); }}\n", op.name.snake());
+        // the free-standing function of the operation: whatever top-level async fn takes this
+        // operation's request envelope (its name is not fixed by any property)
+        for f in scan.fns.iter().filter(|f| f.owner.is_none() && f.is_async && f.public && f.inputs.first().is_some_and(|t| *t == format!("{base}InputEnvelope"))) {
+            s += &format!("fn f_{0}_{1}(req: g::{base}InputEnvelope) {{ assert_send(g::{1}(req, None)); }}\n", op.name.snake(), f.ident);
         }
         s += &format!(
             "fn s_{0}(svc: std::sync::Arc<g::{svc}>, req: g::{base}InputEnvelope) {{ let rt = tokio::runtime::Builder::new_multi_thread().build().unwrap(); let _h = rt.spawn(async move {{ svc.{method}(req).await }}); }}\n",
@@ -303,7 +305,7 @@ pub fn judge_emitted(ex: &Externs, dir: &Path, case: &Case, out: &Outcome, tape:
 
     if aspect == Aspect::Send {
         // compile-only: the emitted file plus the Send assertions
-        let c = pipeline::compile_output(ex, dir, text, &send_assertions(m, w));
+        let c = pipeline::compile_output(ex, dir, text, &send_assertions(m, w, &scan));
         if !c.ok && !c.timed_out {
             let in_assertions = c.errors.iter().filter(|d| d.primary().is_some_and(|s| s.file_name.ends_with("lib.rs"))).collect::<Vec<_>>();
             if let Some(d) = in_assertions.first() {
